@@ -80,6 +80,23 @@ CLAIMED = {
    note=TB % 'c13' + "Modelled not verified: xarray selection/copy semantics (compared), sqrt "
         "rounding (std compared as squares within 8 ulp), random_noise (stubbed: noise is data).",
    technique='Lean 4 frame/sub-cube/permutation theorems on a state-machine model + operation-sequence trace correspondence'),
+ 'C15': dict(
+   text="Proof (Lean 4, arbitrary ordered field; log mode over the reals): the averaging weights "
+        "are overlap lengths of output cells with (nearest-value extended) input cells; they are "
+        "non-negative, every row sums to the output cell width (clamp telescoping lemma), every "
+        "column to the input cell width when both grids cover the same range; hence the result "
+        "stays in the range of the input values, constants are reproduced, the integral is "
+        "conserved, equal grids give the identity, cells outside take the nearest value, the map "
+        "is linear, the 3-D map is the tensor product of the 1-D maps; in log mode resistivity and "
+        "conductivity inputs give reciprocal results. Tie to code: interp_volume_average and "
+        "_volume_average_weights executed exactly on rationals vs the closed form for nested / "
+        "overlapping / shifted / coarser / finer / outside grid pairs; maps.interpolate(volume, "
+        "log), Model.interpolate_to_grid (all properties, nearly homogeneous ones) and the adjoint "
+        "used by the gradient (pairing <Pv,w> = <v,P^T w>) in floats.",
+   design='§4 C15',
+   note=TB % 'c15' + "Modelled not verified: discretize.utils.volume_average (checked through the "
+        "adjoint pairing), log10/10** rounding.",
+   technique='Lean 4 telescoping/overlap lemmas over an ordered field; exact-rational correspondence'),
  'C02': dict(
    text="Proof (Lean 4, over an arbitrary field K, all grid sizes/widths/coefficients/fields): the "
         "model Emg.amat of core.amat_x equals on every interior edge the assembled operator "
